@@ -20,6 +20,7 @@ import JPV.Props.C02
 import JPV.Props.C05
 import JPV.Proofs.LexTotal
 import JPV.Proofs.ParseTotal
+import JPV.Proofs.EvalTotal
 namespace JPV.Props
 open JPV JPV.Impl
 
@@ -90,6 +91,15 @@ well-typed query on a well-formed value evaluates to the RFC nodelist (`eval_cor
 theorem C13_eval_partial (s : Str) (q : Query) (v : Json)
     (hc : Impl.compile builtinEnv s = .ok q) (hwf : v.WF) (hd : v.depth ≤ 100) :
     ∃ ns, Impl.find builtinEnv q v = .ok ns := ⟨_, compile_then_find s q v hc hwf hd⟩
+
+/-- Evaluation is total for every well-typed query on every well-formed value, whatever its depth, for
+any registry satisfying the function contract: it completes with the RFC nodelist or raises
+JSONPathRecursionError (and then the value is nested deeper than the configured limit). -/
+theorem C13_eval (env : Env) (reg : Spec.Registry) (q : Query) (v : Json)
+    (hc : EnvConforms env reg) (hwt : Spec.wtQuery (sigsOf reg) q = true) (hwf : v.WF) (h1 : 1 ≤ env.maxDepth) :
+    Impl.find env q v = .ok (Spec.select reg q v) ∨
+    (Impl.find env q v = .error .recursion ∧ env.maxDepth < (v.depth : Int)) :=
+  Proofs.eval_total env reg q v hc hwt hwf h1
 
 /-- the string form of an error is a total function of the error (message, line, column) -/
 theorem C13_str_total (q : Str) (off : Nat) : ∃ p : Nat × Int, Impl.position q off = p := ⟨_, rfl⟩
